@@ -34,21 +34,22 @@ HELPERS = [
     ("spin_rate", "t", "t", "q", "t", "computeSpinRateDerivative(F) is the Jacobian of dF |-> skew(dF.F^-1) (det F <> 0)", "e"),
     # second round.  Chain-rule overloads and conversions take the derivative X of an inner function and its value: the inner
     # function is the affine v(p) = v0 + X.p (same first order behaviour as any differentiable inner function)
-    ("dsquare_chain", "s", "sS", "", "s", "st2tost2::dsquare(s(x), C) is the Jacobian of x |-> square(s(x)), s(x) = s0 + C.x", "h"),
-    ("tpld_chain", "t", "ttT", "", "t", "t2tot2::tpld(W, C) is the Jacobian of x |-> V(x)*W, V(x) = V0 + C.x", "h"),
-    ("tprd_chain", "t", "ttT", "", "t", "t2tot2::tprd(W, C) is the Jacobian of x |-> W*V(x), V(x) = V0 + C.x", "h"),
+    ("dsquare_chain", "s", "sS", "", "s", "st2tost2::dsquare(s(x), C) is the Jacobian of x |-> square(s(x)), s(x) = s0 + C.x", "h", "t3"),
+    ("tpld_chain", "t", "ttT", "", "t", "t2tot2::tpld(W, C) is the Jacobian of x |-> V(x)*W, V(x) = V0 + C.x", "h", "t3"),
+    ("tprd_chain", "t", "ttT", "", "t", "t2tot2::tprd(W, C) is the Jacobian of x |-> W*V(x), V(x) = V0 + C.x", "h", "t2"),
     ("st2tot2_tpld_chain", "s", "ssS", "", "t", "st2tot2::tpld(w, C) is the Jacobian of x |-> v(x)*w, v(x) = v0 + C.x (symmetric tensors)", "g"),
     ("st2tot2_tprd_chain", "s", "ssS", "", "t", "st2tot2::tprd(w, C) is the Jacobian of x |-> w*v(x), v(x) = v0 + C.x (symmetric tensors)", "h"),
     ("push_forward_dS", "s", "t", "", "s", "computePushForwardDerivative(st2tost2&, F) is the Jacobian of S |-> push_forward(S, F) = F.S.F^T", "i"),
     ("push_forward_dF", "t", "s", "", "s", "computePushForwardDerivativeWithRespectToDeformationGradient(S, F) is the Jacobian of F |-> F.S.F^T", "i"),
-    ("push_forward_chain", "t", "sM", "", "s", "computePushForwardDerivative(dS/dF, S(F), F) is the Jacobian of F |-> F.S(F).F^T, S(F) = S0 + X.F", "i"),
-    ("kirchhoff_from_cauchy", "t", "sM", "", "s", "computeKirchhoffStressDerivativeFromCauchyStressDerivative(ds, s(F), F) is the Jacobian of F |-> det(F) s(F), s(F) = s0 + X.F", "j"),
-    ("cauchy_from_kirchhoff", "t", "sM", "p", "s", "computeCauchyStressDerivativeFromKirchhoffStressDerivative(dtau, tau(F)/det F, F) is the Jacobian of F |-> tau(F)/det(F), tau(F) = t0 + X.F (det F <> 0)", "j"),
-    ("pk1_from_cauchy", "t", "sM", "", "t", "convertCauchyStressDerivativeToFirstPiolaKirchoffStressDerivative(ds, F, s(F)) is the Jacobian of F |-> convertCauchyStressToFirstPiolaKirchhoffStress(s(F), F), s(F) = s0 + X.F", "k"),
-    ("pk1_from_pk2", "t", "sS", "p", "t", "convertSecondPiolaKirchhoffStressDerivativeToFirstPiolaKirchoffStressDerivative(dS/dE, F, sigma(F)) is the Jacobian of F |-> P(F) = F.S(F), S(F) = S0 + X.E_GL(F), through the conversions of /repo (det F <> 0)", "l"),
-    ("tau_from_pk1", "t", "sTA", "p", "s", "convertFirstPiolaKirchoffStressDerivativeToKirchhoffStressDerivative(dP, F0, s0) is the Jacobian at F0 of F |-> det(F) convertFirstPiolaKirchhoffStressToCauchyStress(P(F), F), P(F) = P(s0, F0) + X.(F - F0) (det F0 <> 0)", "m"),
+    ("push_forward_chain", "t", "sM", "", "s", "computePushForwardDerivative(dS/dF, S(F), F) is the Jacobian of F |-> F.S(F).F^T, S(F) = S0 + X.F", "i", "t2"),
+    ("kirchhoff_from_cauchy", "t", "sM", "", "s", "computeKirchhoffStressDerivativeFromCauchyStressDerivative(ds, s(F), F) is the Jacobian of F |-> det(F) s(F), s(F) = s0 + X.F", "i", "t4"),
+    ("cauchy_from_kirchhoff", "t", "sM", "p", "s", "computeCauchyStressDerivativeFromKirchhoffStressDerivative(dtau, tau(F)/det F, F) is the Jacobian of F |-> tau(F)/det(F), tau(F) = t0 + X.F (det F <> 0)", "i", "t5"),
+    ("pk1_from_cauchy", "t", "sM", "", "t", "convertCauchyStressDerivativeToFirstPiolaKirchoffStressDerivative(ds, F, s(F)) is the Jacobian of F |-> convertCauchyStressToFirstPiolaKirchhoffStress(s(F), F), s(F) = s0 + X.F", "j", "t1"),
+    ("pk1_from_pk2", "t", "sS", "p", "t", "convertSecondPiolaKirchhoffStressDerivativeToFirstPiolaKirchoffStressDerivative(dS/dE, F, sigma(F)) is the Jacobian of F |-> P(F) = F.S(F), S(F) = S0 + X.E_GL(F), through the conversions of /repo (det F <> 0)", "j", "t6"),
+    ("tau_from_pk1", "t", "sTA", "p", "s", "convertFirstPiolaKirchoffStressDerivativeToKirchhoffStressDerivative(dP, F0, s0) is the Jacobian at F0 of F |-> det(F) convertFirstPiolaKirchhoffStressToCauchyStress(P(F), F), P(F) = P(s0, F0) + X.(F - F0) (det F0 <> 0)", "j", "t7"),
 ]
-GROUPS = ["", "b", "c", "d", "e", "f", "g", "h", "i", "j", "k", "l", "m"]
+GROUPS = ["", "b", "c", "d", "e", "f", "g", "h", "i", "j", "t1", "t2", "t3", "t4", "t5", "t6", "t7"]
+FIRST_NEW = "dsquare_chain"   # helpers from here on use the lazy unfolding and the per-lemma time budget (jac_t)
 
 
 def size(k, N, pk="-"):
@@ -70,7 +71,11 @@ def main():
            "From C06 Require Import C06Spec C06_gen C06Statements %s.\nImport ListNotations.\nLocal Open Scope R_scope.\n")
     pr = {g: [prh] for g in GROUPS}
     pp = {g: [pph % ("C06Proofs%s.v" % g.upper(), "C06Proofs%s" % g.upper())] for g in GROUPS}
-    for (h, pk, qk, inv, ok, title, g) in HELPERS:
+    newstyle = False
+    for hd in HELPERS:
+        (h, pk, qk, inv, ok, title, g) = hd[:7]
+        g3 = hd[7] if len(hd) > 7 else g
+        newstyle = newstyle or h == FIRST_NEW
         st.append("\n(* %s *)" % title)
         for N in (1, 2, 3):
             np_, no = size(pk, N), size(ok, N)
@@ -93,10 +98,20 @@ def main():
             st.append("Definition %s_stmt%d : Prop :=\n  forall %s : R,\n    %sis_jacobian %d %d (fun p => f_%s_l p [%s]) (fun p => D_%s_l p [%s]) [%s]." % (
                 h, N, " ".join(p + qv), hyp, np_, no, nm, "; ".join(q), nm, "; ".join(q), "; ".join(p)))
             unfh = "ltac:(unfold f_tensor_det%d)" % N if inv else "ltac:(idtac)"
-            pr[g].append("Lemma %s_ok%d : %s_stmt%d.\nProof. unfold %s_stmt%d. jac ltac:(unfold f_%s_l, f_%s, D_%s_l, D_%s) %s. Qed." % (
-                h, N, h, N, h, N, nm, nm, nm, nm, unfh))
-        pp[g].append("\n(* %s *)\nTheorem C06_%s : %s_stmt1 /\\ %s_stmt2 /\\ %s_stmt3.\nProof. exact (conj %s_ok1 (conj %s_ok2 %s_ok3)). Qed.\nPrint Assumptions C06_%s." % (
-            title, h, h, h, h, h, h, h, h))
+            gg = g3 if N == 3 else g
+            if newstyle:
+                pr[gg].append("Lemma %s_ok%d : %s_stmt%d.\nProof. unfold %s_stmt%d. jac_t %d ltac:(lazy beta iota zeta delta [upd nthR List.firstn List.skipn List.app List.nth Nat.mul Nat.add f_%s_l f_%s D_%s_l D_%s]) %s. Qed." % (
+                    h, N, h, N, h, N, 3000 if N == 3 else 600, nm, nm, nm, nm, unfh))
+            else:
+                pr[gg].append("Lemma %s_ok%d : %s_stmt%d.\nProof. unfold %s_stmt%d. jac ltac:(unfold f_%s_l, f_%s, D_%s_l, D_%s) %s. Qed." % (
+                    h, N, h, N, h, N, nm, nm, nm, nm, unfh))
+        if g3 == g:
+            pp[g].append("\n(* %s *)\nTheorem C06_%s : %s_stmt1 /\\ %s_stmt2 /\\ %s_stmt3.\nProof. exact (conj %s_ok1 (conj %s_ok2 %s_ok3)). Qed.\nPrint Assumptions C06_%s." % (
+                title, h, h, h, h, h, h, h, h))
+        else:
+            pp[g].append("\n(* %s -- 1D and 2D (3D: Properties_C06%s.v, thorough tier) *)\nTheorem C06_%s_1D_2D : %s_stmt1 /\\ %s_stmt2.\nProof. exact (conj %s_ok1 %s_ok2). Qed.\nPrint Assumptions C06_%s_1D_2D." % (
+                title, g3, h, h, h, h, h, h))
+            pp[g3].append("\n(* %s -- 3D *)\nTheorem C06_%s_3D : %s_stmt3.\nProof. exact %s_ok3. Qed.\nPrint Assumptions C06_%s_3D." % (title, h, h, h, h))
     files = [("C06Statements.v", st)]
     for g in GROUPS:
         files.append(("C06Proofs%s.v" % g.upper(), pr[g]))
